@@ -63,7 +63,7 @@ var (
 	vmErrorType        = reflect.TypeOf(&Error{})
 	contextType        = reflect.TypeOf((*context.Context)(nil)).Elem()
 
-	nilValue                  = reflect.New(reflect.TypeOf((*interface{})(nil)).Elem()).Elem()
+	nilValue                  = reflect.Zero(reflect.TypeOf((*interface{})(nil)).Elem())
 	trueValue                 = reflect.ValueOf(true)
 	falseValue                = reflect.ValueOf(false)
 	int64Type                 = reflect.TypeOf(int64(0))
